@@ -32,8 +32,8 @@ ASSUMPTIONS = [
 ]
 SHARDS = {"quick": 16, "thorough": 16}
 MINIMUMS = {
-    "quick": {"crash_cases": 600, "deaths_at_point": 550, "relaunches": 600, "natural_ends": 8, "locks_tried": 300, "signal:SIGKILL": 80, "signal:SIGTERM": 80, "signal:SIGINT": 80, "signals_in_body": 30},
-    "thorough": {"crash_cases": 3000, "deaths_at_point": 2500, "relaunches": 3500, "natural_ends": 40, "locks_tried": 3000, "double_faults": 500, "signals_in_body": 300},
+    "quick": {"crash_cases": 600, "deaths_at_point": 550, "relaunches": 600, "natural_ends": 8, "locks_tried": 300, "signal:SIGKILL": 80, "signal:SIGTERM": 80, "signal:SIGINT": 80, "signals_in_body": 30, "signals_in_finalizer": 8, "double_faults": 40},
+    "thorough": {"crash_cases": 3000, "deaths_at_point": 2500, "relaunches": 3500, "natural_ends": 40, "locks_tried": 3000, "double_faults": 500, "signals_in_body": 300, "signals_in_finalizer": 8},
 }
 TIMEOUT = {"quick": 1500, "thorough": 14400}
 INJECT = str(VERIF / "lib" / "inject")
@@ -139,6 +139,7 @@ def one_case(ctx, mode, n, sig, files, point, second=None, nrelaunch=2):
             ctx.inconclusive(f"victim timed out ({w})")
             return
         snap = snapshot(jobdir, name)
+        w["first_launch"] = {"exit": rc, "after": snap, "stderr": err[-300:]}
         died = rc == -getattr(signal, sig) or (sig != "SIGKILL" and rc != 0)
         if rc == -getattr(signal, sig) or sig != "SIGKILL":
             ctx.count("deaths_at_point")
@@ -184,10 +185,33 @@ def one_case(ctx, mode, n, sig, files, point, second=None, nrelaunch=2):
         shutil.rmtree(wd, ignore_errors=True)
 
 
+def swallowed_exit(ctx, mode):
+    """A termination signal whose handler runs where the interpreter ignores exceptions (a finalizer inside the body):
+    the exit requested by the runner's handler does not happen and the body goes on to its end."""
+    wd, jobdir, name = generate(ctx, mode, f"{mode}-{random.randrange(10**9)}")
+    w = {"variant": mode, "point": 0, "where": "finalizer inside the task body", "signal": "SIGTERM" if mode == "termdel" else "SIGINT", "files": FILES_PRIMARY, "second": None}
+    try:
+        rc, err = launch(jobdir, name, 0, "SIGKILL", FILES_PRIMARY)
+        if rc is None:
+            ctx.inconclusive(f"victim timed out ({w})")
+            return
+        snap = snapshot(jobdir, name)
+        ctx.count("signals_in_finalizer")
+        if snap["starts"] != 1:
+            ctx.inconclusive(f"the body did not start ({snap}, {err[-200:]})")
+            return
+        if not snap["failed"] or snap["done"]:
+            ctx.violation("signal-in-body-markers:handler-exit-swallowed", f"{w['signal']} handled inside a finalizer of the body (the handler's exit is ignored there, the body went on: {snap['ends_ok']} end record, exit status {rc}): failed={snap['failed']} done={snap['done']}", w)
+        ctx.case({"v": mode}, nontrivial=True, sample={"variant": mode, "exit": rc, "after": snap}, max_samples=1)
+    finally:
+        shutil.rmtree(wd, ignore_errors=True)
+
+
 def worker(ctx):
     xpctx.quiet()
     rng = ctx.rng
     with xpctx.stderr_to_devnull():
+        swallowed_exit(ctx, "termdel" if ctx.shard % 2 == 0 else "intdel")
         cases = []
         for mode in VARIANTS[ctx.tier]:
             pts, rc, nat, err = crash_points(ctx, mode, FILES_PRIMARY)
@@ -200,6 +224,11 @@ def worker(ctx):
             for i, p in enumerate(pts):
                 for sig in SIGNALS:
                     cases.append((mode, i + 1, sig, FILES_PRIMARY, p.split(" ", 1)[1], None))
+            if mode in ("ok", "fork"):
+                # a launch that succeeds, then a launch of the finished job hit by a catchable signal, then a third one
+                shared = random.Random(f"c10-{os.environ.get('VERIF_SEED', '0')}-{mode}")  # the same sample in every shard
+                for j in sorted(shared.sample(range(len(pts)), min(len(pts), 30 if ctx.tier == "quick" else 60))):
+                    cases.append((mode, 0, "SIGKILL", FILES_PRIMARY, "no fault in the first launch", (j + 1, shared.choice(["SIGTERM", "SIGINT"]))))
             if ctx.tier == "thorough":
                 pts2, _, _, _ = crash_points(ctx, mode, FILES_SECONDARY)
                 for _ in range(60):
@@ -213,7 +242,7 @@ def worker(ctx):
         cases.sort(key=lambda c: (c[0], c[1], c[2], c[3], str(c[5])))
         if ctx.tier == "quick":
             # quick: every point for the succeeding and the raising task, every second point for the other two
-            cases = [c for c in cases if c[0] in ("ok", "raise") or c[1] % 2 == 0]
+            cases = [c for c in cases if c[0] in ("ok", "raise") or c[1] % 2 == 0 or c[5] is not None]
         for k, c in enumerate(cases):
             if k % ctx.nshards == ctx.shard:
                 one_case(ctx, *c, nrelaunch=1 if ctx.tier == "quick" else 2)
@@ -226,4 +255,6 @@ def evidence_extra(counters, sets):
 def replay(ctx, w):
     xpctx.quiet()
     with xpctx.stderr_to_devnull():
+        if w["variant"] in ("termdel", "intdel"):
+            return swallowed_exit(ctx, w["variant"])
         one_case(ctx, w["variant"], w["point"], w["signal"] or "SIGKILL", w.get("files", FILES_PRIMARY), w.get("where", "?"), tuple(w["second"]) if w.get("second") else None)
